@@ -233,6 +233,13 @@ def gen_complex(rng, seeds):
     return ('X', fpart(), fpart())
 
 
+def is_exact_qx(x):
+    """a top-level exact ratio, or a complex number whose parts are exact (what C08/Numbers.v models)"""
+    if x[0] == 'Q':
+        return True
+    return x[0] == 'X' and all(p[0] in 'IQ' for p in x[1:3]) and x[2] != ('I', 0)
+
+
 def is_nan_bits(b):
     return ((b >> 52) & 0x7FF) == 0x7FF and (b & ((1 << 52) - 1)) != 0
 
@@ -247,20 +254,48 @@ def has(d, pred):
     return False
 
 
-def gen_tree(rng, seeds, depth):
+def gen_themed_atom(rng, seeds, theme):
+    """atoms of one family: the token-boundary cases of the compound theorem (what follows a character, a bytevector,
+    a string or a number inside lists / vectors / before a dotted tail)"""
+    if theme == 'char':
+        r = rng.random()
+        if r < 0.75:
+            # characters whose text ends in a character that matters to the tokenizer: ( ) ; " | space x . # digits, named, hex-written
+            return ('C', rng.choice([40, 41, 59, 34, 124, 32, 120, 88, 46, 35, 92, 39, 96, 44, 48, 57, 97, 102, 0, 7, 8, 9, 10, 13, 27, 127, 1, 31, 128, 0xFF, 0x100,
+                                     0xFFFF, 0x10000, 0x10FFFF, scalar(rng)]))
+        return ('S', gen_string_bytes(rng)) if r < 0.9 else ('N',)
+    if theme == 'bytes':
+        r = rng.random()
+        if r < 0.7:
+            n = rng.choice([0, 1, 2, 3, 5, 8, 17])
+            return ('B', bytes(rng.choice([0, 1, 9, 10, 15, 16, 127, 128, 160, 170, 171, 175, 186, 255, rng.randrange(256)]) for _ in range(n)))
+        return ('I', rng.choice([0, 8, 255, 256, -1])) if r < 0.85 else ('C', scalar(rng))
+    if theme == 'num':
+        r = rng.random()
+        if r < 0.45:
+            return ('D', double_bits(rng, seeds))
+        if r < 0.8:
+            return ('I', gen_int(rng))
+        return ('Y', rng.choice([b"e5", b"+", b"-", b"...", b"1+", b"+.a", b"-e", b"x10", b"inf.0", b"nan.0", b".e1"]))
+    return gen_atom(rng, seeds)
+
+
+def gen_tree(rng, seeds, depth, theme=None):
+    atom = (lambda: gen_themed_atom(rng, seeds, theme)) if theme else (lambda: gen_atom(rng, seeds))
     if depth <= 0 or rng.random() < 0.35:
-        return gen_atom(rng, seeds)
+        return atom()
     r = rng.random()
     n = rng.choice([0, 1, 1, 2, 2, 3, 4])
-    if r < 0.55:      # list, sometimes dotted
-        tail = ('N',) if rng.random() < 0.75 else gen_atom(rng, seeds)
+    if r < 0.55:      # list, sometimes dotted (the tail may be any non-list datum, vectors included)
+        t = rng.random()
+        tail = ('N',) if t < 0.7 else atom() if t < 0.93 else ('V', [gen_tree(rng, seeds, depth - 1, theme) for _ in range(rng.choice([0, 1, 2]))])
         if n == 0:
             return tail
         d = tail
         for _ in range(n):
-            d = ('P', gen_tree(rng, seeds, depth - 1), d)
+            d = ('P', gen_tree(rng, seeds, depth - 1, theme), d)
         return d
-    return ('V', [gen_tree(rng, seeds, depth - 1) for _ in range(n)])
+    return ('V', [gen_tree(rng, seeds, depth - 1, theme) for _ in range(n)])
 
 
 # ----------------------------------------------------------------------------- running chibi
@@ -360,7 +395,10 @@ def run(ctx):
                        "half-precision patterns, subnormals, short decimals, random bit patterns), bytevectors, dotted lists, vectors; each datum is built without "
                        "the reader, written by native write and by (scheme write), each text read by native read and by (scheme read); the native text is "
                        "compared byte for byte with the extracted model writer; distinct by datum, non-trivial when the datum is not a boolean/null/small fixnum; "
-                       "graphs with cycles/sharing through datum labels; mutated texts through model reader, native reader and (scheme read)")
+                       "graphs with cycles/sharing through datum labels; mutated texts through model reader, native reader and (scheme read); round 3: char-, "
+                       "bytevector- and number-heavy trees with vector tails after the dot; (scheme write) character text vs its model; the libc hypotheses of the "
+                       "flonum theorem on every generated finite double; the compound theorem's instance (fuel height+2) on every modelled datum in the extracted "
+                       "model; exact ratio/complex tokens (writer text + mutations) through the extracted read_num_token and the native reader")
     # ------------------------------------------------------------------ (G)
     d = ctx.build("default")
     from gen import c08_tables
@@ -405,6 +443,9 @@ def run(ctx):
         data.append(('D', double_bits(rng, seeds)))
     for _ in range(n_trees):
         data.append(gen_tree(rng, seeds, rng.choice([0, 0, 1, 2, 3, 6])))
+    # char-heavy, bytevector-heavy and number-heavy trees: the token boundaries the compound theorem is about
+    for _ in range(n_trees // 8):
+        data.append(gen_tree(rng, seeds, rng.choice([1, 2, 3, 5]), rng.choice(['char', 'char', 'bytes', 'num'])))
     if ctx.thorough:
         for c in list(range(0, 0xD800)) + list(range(0xE000, 0x110000)):
             data.append(('C', c))
@@ -412,7 +453,12 @@ def run(ctx):
     check_graphs(ctx, d, 400 if quick else 10000, exe)
     check_label_texts(ctx, d, exe, 600 if quick else 20000)
     check_texts(ctx, d, exe, data, 3000 if quick else 15000)
-    ctx.assume("libc snprintf(\"%.<p>lg\")/sscanf(\"%lg\")/strtod are correct (hypotheses of flonum_roundtrip_given; the model driver uses the same libc through OCaml)")
+    check_number_texts(ctx, d, exe, data, 500 if quick else 10000)
+    ctx.assume("hypotheses of flonum_roundtrip_given / datum_roundtrip_flonums (record libc_flonum, coq/C08/FloProofs.v): printf %.{15,16,17}lg of a finite double "
+               "has the shape [-]digits[.digits][e(+|-)digits] with '-' iff the sign bit is set and an integer part that (double)long + %.0f reproduce; sscanf %lg "
+               "agrees with strtod on such texts; strtod(-u) = -strtod(u) and strtod(u) has the sign bit clear; strtod is a function of the decimal number denoted "
+               "(digits e k vs w.fr e+dd); strtod(printf %.17lg x) = x.  Each is tested on every generated finite double with the libc behind the OCaml driver (request flohyp)")
+    ctx.assume("sscanf(\"%lg\") and strtod are both instantiated by OCaml's float_of_string in the driver; glibc's snprintf/strtod in chibi itself")
     ctx.assume("C locale (LC_NUMERIC); the writer's locale patching (sexp.c:2265-2280) is outside the model")
     ctx.assume("nesting depth below SEXP_DEFAULT_WRITE_BOUND (10000); ports/buffering, fold-case mode and non-default feature flags are outside the model")
 
@@ -474,6 +520,25 @@ def check_trees(ctx, d, exe, data):
     it = iter(mt)
     model_text = [next(it) if m else None for m in modelled]
     known = _known_sigs()
+    # (K inner, round 3) the model of (scheme write)'s character arm; the hypotheses of flonum_roundtrip_given on this libc, one
+    # finite double at a time; the compound theorem's instance on every modelled datum (model reader with fuel height+2 on the
+    # model writer's text followed by ")")
+    char_idx = [i for i, x in enumerate(data) if x[0] == 'C']
+    swrite_text = dict(zip(char_idx, ctx.run_model(exe, ["swritec " + encs[i] for i in char_idx])))
+    flo_idx = [i for i, x in enumerate(data) if x[0] == 'D' and ((x[1] >> 52) & 0x7FF) != 0x7FF]
+    for i, a in zip(flo_idx, ctx.run_model(exe, ["flohyp " + encs[i] for i in flo_idx])):
+        if a != "OK":
+            ctx.broken("hypothesis:libc_flonum:" + a.split(" ")[1] if a.startswith("FAIL ") else "hypothesis:libc_flonum",
+                       "a hypothesis of flonum_roundtrip_given does not hold for this libc on double %s: %s" % (encs[i], a))
+            break
+    # exact ratios / exact complex numbers at token level (C08/Numbers.v): model text of write_xnum vs sexp_write_one
+    num_idx = [i for i, x in enumerate(data) if is_exact_qx(x)]
+    num_text = dict(zip(num_idx, ctx.run_model(exe, ["nwrite " + encs[i] for i in num_idx])))
+    rt_idx = [i for i, m in enumerate(modelled) if m]
+    for i, a in zip(rt_idx, ctx.run_model(exe, ["rt " + encs[i] for i in rt_idx])):
+        if a != "OK":
+            ctx.broken("model:compound-roundtrip", "extracted model reader does not read back the model writer's text of %s: %s" % (encs[i], a))
+            break
     nan_complex_seen = 0
     forms = [(i, "(verif-case %d %s)" % (i, scm(x))) for i, x in enumerate(data)]
     out = run_scheme(d, forms)
@@ -517,6 +582,23 @@ def check_trees(ctx, d, exe, data):
             else:
                 ctx.violation("native-write:%s" % cls, input=encs[i], scheme=scm(x), expected_text_hex=model_text[i], observed_text_hex=t1,
                               read_back=r11, replay=rp("native-write", "native-read"))
+                continue
+        # ---- exact ratios / complex: model text of write_xnum vs native text
+        if i in num_text and num_text[i] != t1 and xe == encs[i]:
+            if verdicts[0][0] and verdicts[1][0]:
+                ctx.broken("correspondence:writer:" + cls, "model write_xnum and sexp_write_one differ but the text still reads back: datum %s model=%s impl=%s" % (encs[i], num_text[i], t1))
+            else:
+                ctx.violation("native-write:%s" % cls, input=encs[i], scheme=scm(x), expected_text_hex=num_text[i], observed_text_hex=t1,
+                              read_back=r11, replay=rp("native-write", "native-read"))
+                continue
+        # ---- library writer, characters: model text of lib/srfi/38.scm's character arm vs (scheme write)
+        if i in swrite_text and swrite_text[i] != t2:
+            if verdicts[2][0] and verdicts[3][0]:
+                ctx.broken("correspondence:scheme-writer:char", "model of (scheme write)'s character arm and the library differ but the text still reads back: "
+                           "datum %s model=%s impl=%s" % (encs[i], swrite_text[i], t2))
+            else:
+                ctx.violation("scheme-write:char", input=encs[i], scheme=scm(x), expected_text_hex=swrite_text[i], observed_text_hex=t2,
+                              read_back=r21, replay=rp("r7:write", "native-read"))
                 continue
         # ---- the four round trips
         for nm, r, (ok, kind), w, rd in zip(names, results, verdicts, ["native-write", "native-write", "r7:write", "r7:write"],
@@ -926,3 +1008,75 @@ def check_texts(ctx, d, exe, data, n):
             # (then the round trip is at stake) otherwise only the correspondence is
             ctx.broken("correspondence:reader", "model reader and sexp_read_raw differ on text %r (hex %s): model=%s native=%s" % (t.decode("utf-8", "replace"), t.hex(), m, nat))
     ctx.note("mutated texts: the model reader is compared with the native reader only ((scheme read) differs from it on malformed input by design: error kinds, .5 inside lists, #\\x names); %d texts" % len(texts))
+
+
+# ----------------------------------------------------------------------------- exact number tokens: model of sexp_read_number's ratio / complex arms vs native reader
+def check_number_texts(ctx, d, exe, data, n):
+    """(K inner) texts of exact ratios / exact complex numbers / integers as written by the model (write_xnum) and 1-2 edit
+    mutations of them over the alphabet of numeric tokens, through the extracted read_num_token (C08/Numbers.v) and the native
+    reader.  Mantissas are kept below the fixnum range in the mutated texts: sexp_read_bignum has its own copies of the '/' and
+    complex tails (abstracted to one code path in the model); the unmutated writer texts include bignum-sized parts."""
+    rng = ctx.rng
+    pool = sorted({enc(x) for x in data if is_exact_qx(x)})
+    small = []
+    for _ in range(n // 4):
+        def part():
+            z = rng.choice([0, 1, -1, 2, 3, 10, -7, 12, 255, rng.randrange(-10 ** 6, 10 ** 6), (1 << 61) + rng.randrange(100)])
+            if rng.random() < 0.4:
+                dn = rng.choice([2, 3, 7, 10, 12, 100, 9973])
+                g = math.gcd(z, dn)
+                if dn // g != 1:
+                    return ('Q', z // g, dn // g)
+            return ('I', z)
+        im = part()
+        small.append(enc(('X', part(), im)) if im != ('I', 0) and rng.random() < 0.7 else enc(part()))
+    base = pool[:] if len(pool) <= n // 4 else rng.sample(pool, n // 4)
+    exact = ctx.run_model(exe, ["nwrite " + e for e in base + small])
+    texts = set()
+    alphabet = b"+-/i0123456789 )"
+    for k, h in enumerate(exact):
+        t = bytes.fromhex(h)
+        texts.add(t)
+        if k < len(base):
+            continue          # bignum-sized parts: only the writer's own text
+        for _ in range(3):
+            u = bytearray(t)
+            for _ in range(rng.choice([1, 1, 2])):
+                op = rng.random()
+                pos = rng.randrange(len(u) + 1)
+                if op < 0.4 and u:
+                    u[min(pos, len(u) - 1)] = rng.choice(alphabet)
+                elif op < 0.75:
+                    u.insert(pos, rng.choice(alphabet))
+                elif len(u) > 1:
+                    del u[min(pos, len(u) - 1)]
+            if _re.search(rb"[0-9]{18,}", bytes(u)):
+                continue
+            texts.add(bytes(u))
+    texts = sorted(texts)[:n]
+    model = ctx.run_model(exe, ["nread " + t.hex() for t in texts])
+    forms = [(i, '(verif-text %d "%s")' % (i, t.hex())) for i, t in enumerate(texts)]
+    out = run_scheme(d, forms)
+    compared = 0
+    for i, t in enumerate(texts):
+        m = model[i]
+        f = out.get(i)
+        ctx.count(1, key=("numtext", t), nontrivial=True)
+        rp = "printf '%%s' '%s' | xxd -r -p > /tmp/c08-text; chibi-scheme -e '(import (chibi io))' -p '(call-with-input-file \"/tmp/c08-text\" read)'" % t.hex()
+        if f is None or len(f) < 2:
+            ctx.violation("numtext:reader-%s" % ("crash" if f and f[0].startswith("CRASH") else "no-answer"), input=t.hex(), text=t.decode("utf-8", "replace"), observed=(f[0] if f else None), replay=rp)
+            continue
+        nat = f[0]
+        ctx.cov["traces_validated_against_impl"] += 1
+        if m.startswith("ERR Unmodelled") or m.startswith("ERR OutOfFuel"):
+            continue
+        compared += 1
+        mm = "ERR" if m.startswith("ERR") else ("TRAIL" if m.endswith(" TRAIL") else m)
+        ok, kind = compare(mm, nat) if mm not in ("ERR", "TRAIL") else (mm == nat, "other")
+        if not ok:
+            if t in {bytes.fromhex(h) for h in exact}:
+                # a text the writer emits for an exact number does not read back as that number
+                ctx.violation("native-read:exact-number-token", input=t.hex(), text=t.decode("utf-8", "replace"), expected=m, observed=nat, replay=rp)
+            else:
+                ctx.broken("correspondence:number-reader", "model read_num_token and sexp_read_number differ on text %r: model=%s native=%s" % (t.decode("utf-8", "replace"), m, nat))
+    ctx.note("exact number tokens: %d texts, %d inside the model of sexp_read_number's ratio/complex arms" % (len(texts), compared))
